@@ -165,7 +165,7 @@ type interp struct {
 	quiet   int // >0: no events, no stats (inside fact evaluation)
 	depth   int
 
-	constMem map[*constInfo]bool
+	seen map[eventKey]int
 }
 
 const (
@@ -743,9 +743,24 @@ func (in *interp) event(e Event) {
 		return
 	}
 	e.Call = in.callIdx
+	key := eventKey{e.Prop, e.Kind, e.Line, e.Fact, e.Node}
+	if in.seen == nil {
+		in.seen = map[eventKey]int{}
+	}
+	if i, ok := in.seen[key]; ok {
+		in.out.Events[i].Count++
+		return
+	}
 	if len(in.out.Events) < eventCap {
+		in.seen[key] = len(in.out.Events)
 		in.out.Events = append(in.out.Events, e)
 	}
+}
+
+type eventKey struct {
+	prop, kind string
+	line       uint32
+	fact, node string
 }
 
 func (in *interp) nodeText(fr *frame, n *a.Expr) string {
